@@ -3,7 +3,8 @@
 SID=$1; TIER=${2:-quick}
 PID=$(/venv/bin/python -c "import json;print(json.load(open('/verif/seeded/$SID/meta.json'))['property'])")
 cd /repo && git diff --quiet || { echo "/repo not clean"; exit 2; }
-git apply /verif/seeded/$SID/patch.diff || git apply --3way /verif/seeded/$SID/patch.diff || { echo "patch does not apply"; exit 2; }
+git apply --check /verif/seeded/$SID/patch.diff 2>/dev/null || { echo "$SID: patch does not apply to the current tree (needs rebasing)"; exit 2; }
+git apply /verif/seeded/$SID/patch.diff
 cd /verif && ./check $PID --tier $TIER > /tmp/try_$SID.log 2>&1; RC=$?
 cd /repo && git checkout -q -- . 
 /venv/bin/python - $SID $PID $TIER $RC <<'P'
